@@ -42,7 +42,7 @@
 #endif
 
 enum { OP_INFO = 0, OP_HASH_STREAM, OP_HASH_ONESHOT, OP_HASH_HEX, OP_HMAC_STREAM,
-       OP_HMAC_ONESHOT, OP_HMAC_GET, OP_HMAC_HEX, OP_INJECT };
+       OP_HMAC_ONESHOT, OP_HMAC_GET, OP_HMAC_HEX, OP_INJECT, OP_HMAC_STACKSCAN };
 enum { F_NATIVE = 0, F_GENERIC, F_SSE, F_AVX, F_SHANI };
 #define NALG 8
 #define CANARY 0xA5
@@ -547,6 +547,67 @@ done:
 	free(dg); free(cbase); free(cl);
 }
 
+/* Stack residue scan (C07 "the keyed pads are wiped when the computation finishes").
+ * The HMAC entry point runs on a private, zero-filled stack; key, message, hmac context and
+ * MAC live on the heap.  After it returned the whole private stack is searched for the needles
+ * the checker supplies (prefixes of K' xor ipad / K' xor opad).
+ * u8 alg, u8 bytes_arg, u8 kind (0 stream | OP_HMAC_ONESHOT | OP_HMAC_GET | OP_HMAC_HEX),
+ * blob key, blob msg, u8 n, n * blob needle
+ * -> u8 status(0 ok, 3 unsupported build), blob mac, n * i64 (distance below the stack top, -1 not found) */
+#if !defined(VD_ASAN) && !defined(VD_MSAN) && !defined(__SANITIZE_THREAD__)
+#include <ucontext.h>
+#include <sys/mman.h>
+#define SS_SIZE (1024 * 1024)
+static ucontext_t ss_main, ss_work;
+static struct { int alg, ba, kind; const uint8_t *k; size_t kn; const uint8_t *m; size_t n; void *hc; uint8_t *out; } ss;
+static void ss_worker(void) {
+	size_t a = ss.n / 3, rsz;
+	switch (ss.kind) {
+	case 0:
+		m_init(ss.alg, ss.ba, ss.k, ss.kn, ss.hc);
+		m_update(ss.alg, ss.hc, ss.m, a);
+		m_update(ss.alg, ss.hc, ss.m + a, ss.n - a);
+		m_final(ss.alg, ss.hc, ss.out, &rsz);
+		break;
+	case OP_HMAC_ONESHOT: m_oneshot(ss.alg, ss.ba, ss.k, ss.kn, ss.m, ss.n, ss.out, &rsz); break;
+	case OP_HMAC_GET: m_get(ss.alg, ss.ba, ss.k, ss.kn, ss.m, ss.n, ss.out, &rsz); break;
+	default: m_hex(ss.alg, ss.ba, (const char *)ss.k, ss.kn, (const char *)ss.m, ss.n, (char *)ss.out, &rsz); break;
+	}
+}
+static void op_hmac_stackscan(vin_t *in, vout_t *o) {
+	int alg = vin_u8(in) % NALG, ba = vin_u8(in), kind = vin_u8(in);
+	size_t kn, n, osz, i, nn;
+	const uint8_t *key = vin_blob(in, &kn), *msg = vin_blob(in, &n);
+	void *kbase, *mbase, *cbase; uint8_t *stk;
+	nn = vin_u8(in);
+	if (in->bad) { vout_u8(o, 2); return; }
+	osz = (kind == OP_HMAC_HEX) ? hsz[alg] * 2 + 1 : hsz[alg];
+	stk = mmap(NULL, SS_SIZE, PROT_READ | PROT_WRITE, MAP_PRIVATE | MAP_ANONYMOUS, -1, 0);
+	if (stk == MAP_FAILED) { vout_u8(o, 2); return; }
+	ss.alg = alg; ss.ba = ba; ss.kind = kind;
+	ss.k = place(key, kn, 0, &kbase); ss.kn = kn;
+	ss.m = place(msg, n, 0, &mbase); ss.n = n;
+	ss.hc = ctx_alloc(hctx_size(alg), 0, &cbase);
+	ss.out = out_alloc(osz);
+	getcontext(&ss_work);
+	ss_work.uc_stack.ss_sp = stk; ss_work.uc_stack.ss_size = SS_SIZE; ss_work.uc_link = &ss_main;
+	makecontext(&ss_work, ss_worker, 0);
+	swapcontext(&ss_main, &ss_work);
+	vout_u8(o, 0);
+	vout_blob(o, ss.out, osz);
+	for (i = 0; i < nn; i++) {
+		size_t ln; const uint8_t *nd = vin_blob(in, &ln), *f;
+		if (in->bad || ln == 0) { vout_i64(o, -2); continue; }
+		f = memmem(stk, SS_SIZE, nd, ln);
+		vout_i64(o, f ? (int64_t)((stk + SS_SIZE) - f) : -1);
+	}
+	munmap(stk, SS_SIZE);
+	free(ss.out); free(kbase); free(mbase); free(cbase);
+}
+#else
+static void op_hmac_stackscan(vin_t *in, vout_t *o) { (void)in; vout_u8(o, 3); }
+#endif
+
 int main(void) {
 	uint8_t *c; size_t len;
 	vout_t o = { 0 };
@@ -562,6 +623,7 @@ int main(void) {
 		case OP_HMAC_STREAM: op_hmac_stream(&in, &o); break;
 		case OP_HMAC_ONESHOT: case OP_HMAC_GET: case OP_HMAC_HEX: op_hmac_oneshot(&in, &o, op); break;
 		case OP_INJECT: op_inject(&in, &o); break;
+		case OP_HMAC_STACKSCAN: op_hmac_stackscan(&in, &o); break;
 		default: vout_u8(&o, 2); break;
 		}
 		vout_flush(&o);
